@@ -669,6 +669,15 @@ def r_order(ctx):
     else:
         msg = "assign_dual_values is called %d times in the solve root" % len(assigns)
     ctx.ob("R-ORDER", "PEP.%s::duals captured once before the heuristic" % root.name, ok, msg, loc(root, assigns[0] if assigns else root))
+    # ... and nothing else in the package triggers the capture (it writes the multipliers onto the constraints of the model): an accessor or a
+    # solve that calls it later would overwrite the proof with the multipliers of whatever problem the wrapper solved last
+    elsewhere = [(f0, c0) for f0 in repo.all_functions() if f0 is not root for c0 in ast.walk(f0)
+                 if isinstance(c0, ast.Call) and call_name(c0) == "assign_dual_values"]
+    ctx.ob("R-ORDER", "assign_dual_values::called by the solve root only", not elsewhere,
+           "the only call site is in the solve root" if not elsewhere else
+           "%s calls assign_dual_values as well: the multipliers stored on the constraints can be overwritten after the capture -- after a "
+           "dimension reduction, by those of the modified problem" % qualname(elsewhere[0][0]),
+           loc(elsewhere[0][0], elsewhere[0][1]) if elsewhere else loc(root, root))
     # a solve between capture and heuristic?  the first solve must precede the capture
     solves = sorted([c for c in ast.walk(root) if isinstance(c, ast.Call) and call_name(c) == "solve" and dotted(c.func.value) == wname], key=lambda c: c.lineno)
     if assigns and solves:
